@@ -206,7 +206,7 @@ pub fn stmt_json<T: Mk>(s: &St) -> J {
     }
 }
 
-fn succ_attr(a: &A, k: u64) -> Option<A> {
+pub fn succ_attr(a: &A, k: u64) -> Option<A> {
     match a {
         A::N(n) => n.checked_add(k).map(A::N),
         A::T(n) => n.checked_add(k).map(A::T),
@@ -218,7 +218,7 @@ fn succ_attr(a: &A, k: u64) -> Option<A> {
         }
     }
 }
-fn pred_attr(a: &A, k: u64) -> Option<A> {
+pub fn pred_attr(a: &A, k: u64) -> Option<A> {
     match a {
         A::N(n) => n.checked_sub(k).map(A::N),
         A::T(n) => n.checked_sub(k).map(A::T),
@@ -350,7 +350,7 @@ fn b2s(b: Result<bool, String>) -> J { match b { Ok(x) => json!(x), Err(_) => js
 
 /// One id-level case: prove, verify, revealed values, perturbations.
 fn stmt_case<T: Mk>(r: &mut Rng, csprng: &mut StdRng, global: &GlobalContext<ArCurve>, global2: &[GlobalContext<ArCurve>; 2],
-                    al: &[(u8, A)], ss: &[St], ver: u8, tie: bool) {
+                    al: &[(u8, A)], ss: &[St], ver: u8, tie: bool) -> bool {
     let w: World<T> = build_world(global, al, csprng);
     let filler = Commitment(ArCurve::hash_to_group(b"filler").unwrap());
     let cred: ArCurve = ArCurve::hash_to_group(&r.bytes(8)).unwrap();
@@ -364,10 +364,11 @@ fn stmt_case<T: Mk>(r: &mut Rng, csprng: &mut StdRng, global: &GlobalContext<ArC
         "al": al.iter().map(|(t, a)| { let x = T::mk(a).unwrap(); json!([t, a_json(a), fe_hex(&x)]) }).collect::<Vec<_>>(),
         "ss": ss.iter().map(|s| stmt_json::<T>(s)).collect::<Vec<_>>(), "clen": challenge.len()});
     let proof = match proof {
-        Err(_) => { out["prove"] = json!("PANIC"); println!("{}", out); return; }
-        Ok(None) => { out["prove"] = json!("None"); println!("{}", out); return; }
+        Err(_) => { out["prove"] = json!("PANIC"); println!("{}", out); return false; }
+        Ok(None) => { out["prove"] = json!("None"); println!("{}", out); return false; }
         Ok(Some(p)) => p,
     };
+    let mut tied = false;
     out["prove"] = json!("Some");
     let ok = guarded(|| full.verify(ver_of(ver), &challenge, global, &coms, &proof));
     out["verify"] = b2s(ok.clone());
@@ -539,21 +540,23 @@ fn stmt_case<T: Mk>(r: &mut Rng, csprng: &mut StdRng, global: &GlobalContext<ArC
                         "x": hex(&to_bytes(&x)), "keys": hex(&to_bytes(&global.on_chain_commitment_key)), "C": hex(&to_bytes(com)),
                         "public": hex(&to_bytes(&public)), "coeff": hex(&to_bytes(&global.on_chain_commitment_key.h)), "point": hex(&to_bytes(&point)),
                         "fs": hex(dl.challenge.as_ref())});
+                    tied = true;
                 }
             }
         }
     }
     println!("{}", out);
+    tied
 }
 
-fn gen_alist(r: &mut Rng, web3: bool) -> Vec<(u8, A)> {
+pub fn gen_alist(r: &mut Rng, web3: bool) -> Vec<(u8, A)> {
     let n = 2 + r.below(4) as usize;
     let mut tags: Vec<u8> = Vec::new();
     while tags.len() < n { let t = *r.pick(&[0u8, 1, 2, 3, 4, 5, 10, 13, 254, 255]); if !tags.contains(&t) { tags.push(t); } }
     tags.iter().map(|t| (*t, if r.chance(1, 2) { gen_range_value(r, web3) } else { gen_attr(r, web3) })).collect()
 }
 
-fn gen_stmts(r: &mut Rng, al: &[(u8, A)], web3: bool) -> Vec<St> {
+pub fn gen_stmts(r: &mut Rng, al: &[(u8, A)], web3: bool) -> Vec<St> {
     let k = match r.below(10) { 0 => 0, 1..=5 => 1, 6 | 7 => 2, 8 => 3, _ => 4 };
     let others: Vec<A> = al.iter().map(|(_, a)| a.clone()).collect();
     (0..k).map(|_| {
@@ -596,9 +599,9 @@ fn stmt_mode(seed: u64, n: u64) {
     let mut idx = 0u64;
     for (web3, al, ss) in corpus.iter() {
         for ver in [1u8, 2u8] {
-            let tie = idx < 8 && matches!(ss.first(), Some(St::Reveal(_)));
-            if *web3 { stmt_case::<Web3IdAttribute>(&mut r, &mut csprng, &global, &global2, al, ss, ver, tie) }
-            else { stmt_case::<AttributeKind>(&mut r, &mut csprng, &global, &global2, al, ss, ver, tie) }
+            let tie = matches!(ss.first(), Some(St::Reveal(_))) && ss.len() == 2;
+            if *web3 { stmt_case::<Web3IdAttribute>(&mut r, &mut csprng, &global, &global2, al, ss, ver, tie); }
+            else { stmt_case::<AttributeKind>(&mut r, &mut csprng, &global, &global2, al, ss, ver, tie); }
         }
         idx += 1;
     }
@@ -609,10 +612,11 @@ fn stmt_mode(seed: u64, n: u64) {
         let mut ss = gen_stmts(&mut r, &al, web3);
         let ver = if r.chance(1, 3) { 1 } else { 2 };
         let want_tie = ties < 4 && i % 5 == 0;
-        if want_tie { ss.insert(0, St::Reveal(al[0].0)); ties += 1; }
+        if want_tie { ss.insert(0, St::Reveal(al[0].0)); }
         if r.chance(1, 40) { ss.push(St::Reveal(77)); } // missing attribute
-        if web3 { stmt_case::<Web3IdAttribute>(&mut r, &mut csprng, &global, &global2, &al, &ss, ver, want_tie) }
-        else { stmt_case::<AttributeKind>(&mut r, &mut csprng, &global, &global2, &al, &ss, ver, want_tie) }
+        let t = if web3 { stmt_case::<Web3IdAttribute>(&mut r, &mut csprng, &global, &global2, &al, &ss, ver, want_tie) }
+        else { stmt_case::<AttributeKind>(&mut r, &mut csprng, &global, &global2, &al, &ss, ver, want_tie) };
+        if t { ties += 1; }
     }
     // sets beyond the number of generators (256): the padded vector does not fit
     if n >= 20 {
@@ -624,6 +628,47 @@ fn stmt_mode(seed: u64, n: u64) {
         let full: Vec<A> = (0..256u64).map(|i| A::N(1 + i)).collect();
         stmt_case::<Web3IdAttribute>(&mut r, &mut csprng, &global, &global2, &al, &[St::In(0, full.clone())], 2, false);
         stmt_case::<Web3IdAttribute>(&mut r, &mut csprng, &global, &global2, &[(0u8, A::N(1000))], &[St::NotIn(0, full)], 2, false);
+    }
+}
+
+/// Presentation modes go through the JSON forms, which cannot represent every u64 timestamp
+/// (chrono range): keep timestamps below 2^53 there.
+fn clamp(a: &A) -> A { match a { A::T(n) => A::T((*n % (1u64 << 53)).max(1u64 << 36)), x => x.clone() } }
+pub fn gen_alist_pub(r: &mut Rng, web3: bool) -> Vec<(u8, A)> { gen_alist(r, web3).iter().map(|(t, a)| (if *t >= 254 { *t - 248 } else { *t }, clamp(a))).collect() }
+pub fn gen_stmts_pub(r: &mut Rng, al: &[(u8, A)], web3: bool) -> Vec<St> {
+    gen_stmts(r, al, web3).iter().map(|s| match s {
+        St::Reveal(t) => St::Reveal(*t),
+        St::Range(t, a, b) => St::Range(*t, clamp(a), clamp(b)),
+        St::In(t, x) => St::In(*t, x.iter().map(clamp).collect()),
+        St::NotIn(t, x) => St::NotIn(*t, x.iter().map(clamp).collect()),
+    }).collect()
+}
+pub fn succ_attr_pub(a: &A, k: u64) -> Option<A> { succ_attr(a, k) }
+pub fn pred_attr_pub(a: &A, k: u64) -> Option<A> { pred_attr(a, k) }
+
+fn fe_int(a: &A) -> Vec<u8> { to_bytes(&Web3IdAttribute::mk(a).unwrap().to_field_element()) }
+fn sub_be(a: &[u8], b: &[u8]) -> Option<Vec<u8>> {
+    // a - b for 32-byte big-endian numbers, None when negative
+    if a < b { return None; }
+    let mut out = vec![0u8; 32]; let mut borrow = 0i16;
+    for i in (0..32).rev() { let mut d = a[i] as i16 - b[i] as i16 - borrow; if d < 0 { d += 256; borrow = 1 } else { borrow = 0 } out[i] = d as u8; }
+    Some(out)
+}
+/// The statement is true over the implementation's scalars AND inside the class the implementation can
+/// prove (used only to GENERATE mostly-true presentations; the check re-derives everything itself).
+pub fn impl_truth_supported(al: &[(u8, A)], s: &St) -> bool {
+    let v = match al.iter().find(|(t, _)| *t == s.tag()) { Some((_, a)) => fe_int(a), None => return false };
+    match s {
+        St::Reveal(_) => true,
+        St::Range(_, lo, hi) => {
+            let (l, h) = (fe_int(lo), fe_int(hi));
+            let small = |d: Option<Vec<u8>>, incl: bool| match d { None => false, Some(x) => {
+                let top_zero = x[..24].iter().all(|b| *b == 0);
+                if top_zero { true } else { incl && x[..23].iter().all(|b| *b == 0) && x[23] == 1 && x[24..].iter().all(|b| *b == 0) } } };
+            l <= v && v < h && small(sub_be(&v, &l), false) && small(sub_be(&h, &v), true)
+        }
+        St::In(_, set) => set.len() <= 256 && set.iter().any(|x| fe_int(x) == v),
+        St::NotIn(_, set) => !set.is_empty() && set.len() <= 256 && !set.iter().any(|x| fe_int(x) == v),
     }
 }
 
@@ -655,7 +700,7 @@ fn frame_mode(seed: u64, n: u64) {
 }
 
 fn main() {
-    quiet_panics();
+    if std::env::var("C18_LOUD").is_err() { quiet_panics(); }
     let args: Vec<String> = std::env::args().collect();
     let mode = args.get(1).map(|s| s.as_str()).unwrap_or("");
     let seed: u64 = args.get(2).and_then(|s| s.parse().ok()).unwrap_or(1);
